@@ -91,6 +91,9 @@ struct Drv<const M: usize> {
     nops: usize,
     // pending try_with frames: how many are open (the model keeps the details)
     content_checks: usize,
+    // regression scenarios: when set, the next try_with / setlimit take these instead of random choices
+    force_tw: Option<(u64, bool, bool)>,
+    force_limit: Option<Option<usize>>,
     // C10, byte-exact clause: when non-zero every allocation of this history has this alignment
     // and a size that is a multiple of it (and nothing is ever given back individually)
     uniform: usize,
@@ -442,6 +445,33 @@ impl<const M: usize> Drv<M> {
         }
     }
 
+    /// a raw-layout allocation with given parameters (regression scenarios)
+    fn op_alloc_forced(&mut self, size: usize, align: usize, how: u64) {
+        let lay = Layout::from_size_align(size, align).unwrap();
+        let name = ["alloc_layout", "try_alloc_layout", "allocate"][how as usize];
+        let desc = format!("alloc {} {} {} {}", lay.size(), lay.align(), (how != 0) as u8, name);
+        let mut rng = self.rng.fork();
+        self.begin(&desc);
+        let b = self.bump.as_ref().unwrap();
+        let r = guarded(|| match how {
+            0 => Ok(b.alloc_layout(lay).as_ptr() as usize),
+            1 => b.try_alloc_layout(lay).map(|p| p.as_ptr() as usize).map_err(|_| ()),
+            _ => (&b).allocate(lay).map(|p| p.as_ptr() as *mut u8 as usize).map_err(|_| ()),
+        });
+        let out = match r {
+            Ok(Ok(a)) => {
+                let exp = if lay.size() <= HUGE { pattern(&mut rng, lay.size()) } else { Vec::new() };
+                if lay.size() <= HUGE {
+                    unsafe { write_bytes(a, &exp) };
+                }
+                Ok((a, lay.size(), lay.align(), exp))
+            }
+            Ok(Err(())) => Err(Res::Err),
+            Err(p) => Err(p),
+        };
+        self.record_alloc(&desc, out);
+    }
+
     /// an allocation of `uniform`-aligned bytes whose size is a multiple of the alignment
     fn op_alloc_uniform(&mut self) {
         let a = self.uniform;
@@ -748,6 +778,7 @@ impl<const M: usize> Drv<M> {
             9 => Some(held * 3 + 64),
             _ => Some(self.rng.usize_below(1 << 20)),
         };
+        let lim = match self.force_limit.take() { Some(l) => l, None => lim };
         let desc = format!("setlimit {}", lim.map(|l| l.to_string()).unwrap_or("-".into()));
         self.begin(&desc);
         self.b().set_allocation_limit(lim);
@@ -791,6 +822,9 @@ impl<const M: usize> Drv<M> {
         let fallible = self.rng.chance(1, 2);
         let ok = self.rng.chance(1, 2);
         let nested = depth == 0 && self.rng.chance(1, 8);
+        let forced = self.force_tw.take();
+        let (combo, fallible, ok, nested) = match forced { Some((c, f, o)) => (c, f, o, false), None => (combo, fallible, ok, nested) };
+        let quiet_inner = forced.is_some();
         macro_rules! go {
             ($t:ty, $e:ty) => {{
                 let lay = Layout::new::<Result<$t, $e>>();
@@ -818,7 +852,7 @@ impl<const M: usize> Drv<M> {
                         track::paused(|| ());
                         let was = track::set_active(false);
                         let before = me.nops;
-                        if me.uniform == 0 {
+                        if me.uniform == 0 && !quiet_inner {
                             me.inner_actions();
                         }
                         if nested && me.uniform == 0 {
@@ -916,6 +950,7 @@ impl<const M: usize> Drv<M> {
 
     /// the same with an error type that has a destructor: it must run exactly once, in the caller's hands
     fn op_try_with_droppable_error(&mut self, depth: u32) {
+        let quiet_inner = false;
         let fallible = self.rng.chance(1, 2);
         let ok = self.rng.chance(1, 3);
         let nested = depth == 0 && self.rng.chance(1, 8);
@@ -946,7 +981,7 @@ impl<const M: usize> Drv<M> {
                         track::paused(|| ());
                         let was = track::set_active(false);
                         let before = me.nops;
-                        if me.uniform == 0 {
+                        if me.uniform == 0 && !quiet_inner {
                             me.inner_actions();
                         }
                         if nested && me.uniform == 0 {
@@ -1186,7 +1221,7 @@ fn run_history<const M: usize>(plan: &Plan) {
     track::reset_log();
     let c = bumpalo::verif_hooks::consts();
     let mode = if cfg!(debug_assertions) { "debug" } else { "release" };
-    let mut d: Drv<M> = Drv { bump: None, blks: Vec::new(), rng, out: std::io::stdout(), log_mark: 0, nops: 0, content_checks: 0, uniform: 0 };
+    let mut d: Drv<M> = Drv { bump: None, blks: Vec::new(), rng, out: std::io::stdout(), log_mark: 0, nops: 0, content_checks: 0, uniform: 0, force_tw: None, force_limit: None };
     if M >= 1 && M <= 16 && plan.hid % 5 == 4 {
         // a uniform history: one alignment between MIN_ALIGN and 16
         let choices: Vec<usize> = [1usize, 2, 4, 8, 16].iter().copied().filter(|a| *a >= M).collect();
@@ -1349,6 +1384,97 @@ fn run_history<const M: usize>(plan: &Plan) {
     d.line("E");
 }
 
+
+
+// ---------------------------------------------------------------- regression scenarios
+// The situations in which the defects listed in known_findings.json (fixed) showed: they are
+// run on every check, through the same operations and the same checker as the random
+// histories, so a defect that returns is reported whatever the random generator draws.
+#[derive(Clone, Copy)]
+enum Sc {
+    Limit(Option<usize>),
+    Alloc(usize, usize, u64),
+    Reset,
+    FailAll(bool),
+    TryWith(u64, bool, bool),
+}
+
+fn run_scenario<const M: usize>(hid: u64, seed: u64, how: u64, cap: usize, steps: &[Sc]) {
+    let rng = Rng::new(seed ^ hid.wrapping_mul(0x9E3779B97F4A7C15));
+    track::set_adversary(false);
+    track::clear_faults();
+    track::reset_log();
+    let c = bumpalo::verif_hooks::consts();
+    let mode = if cfg!(debug_assertions) { "debug" } else { "release" };
+    let mut d: Drv<M> = Drv { bump: None, blks: Vec::new(), rng, out: std::io::stdout(), log_mark: 0, nops: 0, content_checks: 0, uniform: 0, force_tw: None, force_limit: None };
+    d.line(&format!(
+        "H id={} seed={} malign={} mode={} adversary=0 eaddr={} consts={},{},{},{},{},{},{} uniform=0 scenario=1",
+        hid, seed, M, mode, c[7], c[0], c[1], c[2], c[3], c[4], c[5], c[6]
+    ));
+    let desc = if how == 0 { "cap 0 0".to_string() } else { format!("cap {} 0", cap) };
+    d.begin(&desc);
+    let r = guarded(|| if how == 0 { Bump::<M>::with_min_align() } else { Bump::<M>::with_min_align_and_capacity(cap) });
+    match r {
+        Ok(b) => {
+            d.bump = Some(b);
+            d.end(&desc, &Res::Unit);
+        }
+        Err(p) => {
+            d.end(&desc, &p);
+            d.line("E");
+            return;
+        }
+    }
+    for st in steps {
+        match *st {
+            Sc::Limit(l) => {
+                d.force_limit = Some(l);
+                d.op_setlimit();
+            }
+            Sc::Alloc(size, align, how) => d.op_alloc_forced(size, align, how),
+            Sc::Reset => d.op_reset(),
+            Sc::FailAll(on) => track::set_fail_all(on),
+            Sc::TryWith(combo, fallible, ok) => {
+                d.force_tw = Some((combo, fallible, ok));
+                d.op_try_with(0);
+            }
+        }
+        d.check_contents();
+    }
+    track::clear_faults();
+    d.begin("drop");
+    let b = d.bump.take().unwrap();
+    let r = guarded(move || drop(b));
+    match r {
+        Ok(()) => d.end("drop", &Res::Unit),
+        Err(p) => d.end("drop", &p),
+    }
+    d.line("E");
+}
+
+fn scenarios(seed: u64) {
+    fn all<const M: usize>(seed: u64, base: u64) {
+        let a = M.max(1);
+        // F1: with_capacity then reset (accounting)
+        run_scenario::<M>(base, seed, 1, 1, &[Sc::Reset, Sc::Alloc(8 * a, a, 1), Sc::Reset]);
+        run_scenario::<M>(base + 1, seed, 1, 4032, &[Sc::Alloc(4096, 128, 0), Sc::Reset, Sc::Reset]);
+        // F2: a failing initialiser whose slot forces a chunk (first chunk, and a later one)
+        run_scenario::<M>(base + 2, seed, 0, 0, &[Sc::TryWith(0, false, false), Sc::TryWith(0, true, false), Sc::Alloc(100, 1, 1)]);
+        run_scenario::<M>(base + 3, seed, 1, 64, &[Sc::Alloc(40, a, 1), Sc::TryWith(4, true, false), Sc::TryWith(1, false, false), Sc::Reset]);
+        // F3 / F9: zero-sized requests on an arena that holds nothing (alignment, stores to the static)
+        run_scenario::<M>(base + 4, seed, 0, 0, &[Sc::Alloc(0, 1, 0), Sc::Alloc(0, a, 1), Sc::Alloc(0, 8, 2), Sc::TryWith(3, true, false), Sc::Reset, Sc::Alloc(0, 1, 1)]);
+        // F4: tiny limit, zero-sized over-aligned request: a zero-capacity chunk
+        run_scenario::<M>(base + 5, seed, 0, 0, &[Sc::Limit(Some(10)), Sc::Alloc(0, 4096, 1), Sc::Alloc(0, 32, 1), Sc::Alloc(0, 64, 2), Sc::Reset]);
+        // F5: tiny limit, nothing held, the global allocator refuses: the slow path must return
+        run_scenario::<M>(base + 6, seed, 0, 0, &[Sc::Limit(Some(100)), Sc::FailAll(true), Sc::Alloc(0, 8, 1), Sc::Alloc(5, 1, 1), Sc::FailAll(false), Sc::Alloc(5, 1, 1)]);
+        run_scenario::<M>(base + 7, seed, 0, 0, &[Sc::Limit(Some(447)), Sc::FailAll(true), Sc::Alloc(0, 1, 2), Sc::FailAll(false)]);
+        // F6: a limit set below what is already held
+        run_scenario::<M>(base + 8, seed, 1, 17, &[Sc::Limit(Some(100)), Sc::Alloc(1000, 1, 1), Sc::Alloc(5000, 8, 2), Sc::Limit(Some(0)), Sc::Alloc(600, 1, 1)]);
+    }
+    all::<1>(seed, 900000);
+    all::<4>(seed, 900100);
+    all::<16>(seed, 900200);
+}
 
 // ---------------------------------------------------------------- C20: isolation differential
 // One arena's history is run in a fresh process twice: alone, and surrounded by other arenas
@@ -1559,6 +1685,7 @@ fn main() {
             let first: u64 = args.get(5).map(|s| s.parse().unwrap()).unwrap_or(0);
             if first == 0 {
                 ctor_tests();
+                scenarios(seed);
                 // C20: isolation differential in fresh processes (shard 0 only)
                 iso(seed, if maxops > 100 { 120 } else { 24 }, 0);
             }
@@ -1580,6 +1707,7 @@ fn main() {
             let noise = args[4] == "1";
             if hid % 2 == 0 { iso_one::<1>(seed, hid, noise) } else { iso_one::<8>(seed, hid, noise) }
         }
+        Some("scenarios") => scenarios(args.get(2).map(|s| s.parse().unwrap()).unwrap_or(1)),
         Some("iso") => {
             iso(args[2].parse().unwrap(), args[3].parse().unwrap(), args.get(4).map(|s| s.parse().unwrap()).unwrap_or(0));
         }
